@@ -171,6 +171,19 @@ theorem depth_refused (fs : FS) (ipath : List Name) (tbl : Table) (r : Frame) (b
     rw [if_pos (by omega), h1]
     rfl
 
+/-- **the "EOF encountered while expecting line continuation" diagnostic is truthful**: the reader says it only of a
+frame whose remaining physical lines all end in a backslash and whose file ends there — nothing, not even an
+unterminated line, follows the last backslash-newline.  (Before the repair 74592f4 it was also said of a clause
+whose continuation line was there but lacked the final newline.) -/
+theorem eof_continuation_truthful (r : Frame) {k : Nat}
+    (h : gather r.tail r.bad [] r.rest 0 = .eofCont k) :
+    r.tail = [] ∧ ∀ l ∈ r.rest, endsBackslash l = true :=
+  gather_eofCont_truthful r.tail r.bad r.rest [] 0 h
+
+/-- a clause continued into an unterminated last line is read: `title x \`, newline, ` y`, end of file -/
+example : gather [32, 121] false [] [[116, 105, 116, 108, 101, 32, 120, 32, 92]] 0
+    = .line [116, 105, 116, 108, 101, 32, 120, 32, 10, 32, 121] [] 2 true := by decide
+
 /-! ## Non-vacuity and the behaviour before the repairs (kernel-evaluated) -/
 
 /-- accepts everything except the text `bad` -/
